@@ -299,9 +299,9 @@ impl Ctx {
     }
 
     /// Sharded random search.  `cases` is the total number of generated cases.
-    pub fn run_cases<S, C>(&mut self, part: &str, rule: &str, strategy: S, cases: u64, f: impl Fn(&C) -> CaseResult + Sync)
+    pub fn run_cases<S, C>(&mut self, part: &str, rule: &str, strategy: impl Fn() -> S + Sync, cases: u64, f: impl Fn(&C) -> CaseResult + Sync)
     where
-        S: Strategy<Value = C> + Sync,
+        S: Strategy<Value = C>,
         C: Clone + std::fmt::Debug + Hash + Serialize + DeserializeOwned + Send,
     {
         if let Some(r) = self.replay.clone() {
@@ -331,7 +331,7 @@ impl Ctx {
                     .map(|shard| {
                         std::thread::Builder::new()
                             .stack_size(256 << 20)
-                            .spawn_scoped(sc, move || this.run_shard(part, shard, per, strategy, f))
+                            .spawn_scoped(sc, move || this.run_shard(part, shard, per, &strategy(), f))
                             .expect("spawn")
                     })
                     .collect();
